@@ -136,6 +136,31 @@ def extract(missing):
     ccmd = fn_body(clone, "clone_cmd") or ""
     f["cloneArchiveOpen"] = "File::open" if re.search(r"File::open\(&path\)", ccmd) else missing("archive open")
     f["cloneOtherFsCalls"] = sorted(set(re.findall(r"\b(remove_file|rename|create_dir\w*|File::create|hard_link|symlink\w*|copy)\(", clone)))
+
+    # 6. resource bounds of the header reads (the repairs of F8.k12, F10, F8.h): how much the readers
+    # reserve / take for a `read_at` of a declared size, and whether a body fragment is clipped
+    from .extract import const_expr
+    io = strip_comments(rd("bitar/src/archive_reader/io_reader.rs"))
+    ra = fn_body(io, "read_at") or ""
+    m = re.search(r"const MAX_PREALLOCATE: usize = ([^;]+);", ra) or re.search(r"const MAX_PREALLOCATE: usize = ([^;]+);", io)
+    f["ioMaxPreallocate"] = (const_expr(m.group(1)) if m else None) or missing("io read_at MAX_PREALLOCATE")
+    m = re.search(r"BytesMut::with_capacity\(\s*(.*?)\s*\);", ra, re.S)
+    init = re.sub(r"\s+", "", m.group(1)) if m else None
+    f["ioInitialCapacity"] = init or missing("io read_at initial capacity")
+    m = re.search(r"buf\.reserve\(\s*(.*?)\s*\);", ra, re.S)
+    grow = re.sub(r"\s+", "", m.group(1)) if m else None
+    f["ioGrowBy"] = grow or missing("io read_at reserve")
+    f["ioInitialCapacityBounded"] = init in ("std::cmp::min(size,MAX_PREALLOCATE)", "size.min(MAX_PREALLOCATE)",
+                                             "std::cmp::min(MAX_PREALLOCATE,size)")
+    f["ioGrowBounded"] = grow in ("std::cmp::min(size-buf.len(),MAX_PREALLOCATE)", "(size-buf.len()).min(MAX_PREALLOCATE)",
+                                  "std::cmp::min(MAX_PREALLOCATE,size-buf.len())")
+    hr = strip_comments(rd("bitar/src/archive_reader/http_range_request.rs"))
+    sf = fn_body(hr, "single_fail") or ""
+    m = re.search(r"if body\.len\(\) as u64 (>=|==|>|<=|<|!=) size \{\s*break;", sf)
+    f["httpSingleStopIf"] = m.group(1) if m else missing("http single_fail stop condition")
+    pf = fn_body(hr, "poll_read_fail") or ""
+    f["httpFragmentClipped"] = bool(re.search(
+        r"if item\.len\(\) as u64 > self\.size \{\s*item\.truncate\(self\.size as usize\);\s*\}\s*self\.offset \+= item\.len\(\) as u64;", pf))
     return f
 
 
@@ -222,6 +247,16 @@ def gen(f):
         'def cloneArchiveOpen : String := "%s"' % (f.get("cloneArchiveOpen") or "unknown"),
         "/-- file-system calls in clone_cmd.rs other than opening files -/",
         "def cloneOtherFsCalls : List String := %s" % lean_str_list(f.get("cloneOtherFsCalls")),
+        "",
+        "/-- `IoReader::read_at`: `MAX_PREALLOCATE`; is the initial capacity `min(size, MAX_PREALLOCATE)`; is the",
+        "buffer grown by `min(size - len, MAX_PREALLOCATE)` -/",
+        "def ioMaxPreallocate : Nat := %d" % (f.get("ioMaxPreallocate") or 0),
+        "def ioInitialCapacityBounded : Bool := %s" % ("true" if f.get("ioInitialCapacityBounded") else "false"),
+        "def ioGrowBounded : Bool := %s" % ("true" if f.get("ioGrowBounded") else "false"),
+        "/-- `HttpRangeRequest::single_fail` stops taking body frames once `body.len() <this> size` -/",
+        'def httpSingleStopIf : String := "%s"' % (f.get("httpSingleStopIf") or "unknown"),
+        "/-- `poll_read_fail` truncates a body frame longer than what is still requested -/",
+        "def httpFragmentClipped : Bool := %s" % ("true" if f.get("httpFragmentClipped") else "false"),
         "",
         "end Bita.Gen",
         "",
